@@ -279,3 +279,55 @@ func SizesAround(plo, phi uint, ds []int) []int {
 	sort.Ints(out)
 	return out
 }
+
+// Dirty* return a copy of the argument with SPARE CAPACITY beyond its length that
+// holds a canary pattern (0xC5 bytes). A slice a caller hands to the library may be
+// a window into a larger buffer: what lies between len and cap is not the
+// library's to read (it must behave as if it were not there) nor to write.
+const DirtySpare = 12
+
+func DirtyBytes(b []byte) []byte {
+	r := make([]byte, len(b)+DirtySpare)
+	copy(r, b)
+	for i := len(b); i < len(r); i++ {
+		r[i] = 0xC5
+	}
+	return r[:len(b)]
+}
+
+func DirtyU64(w []uint64, spare int) []uint64 {
+	r := make([]uint64, len(w)+spare)
+	copy(r, w)
+	for i := len(w); i < len(r); i++ {
+		r[i] = 0xC5C5C5C5C5C5C5C5
+	}
+	return r[:len(w)]
+}
+
+func DirtyI32(w []int32) []int32 {
+	r := make([]int32, len(w)+DirtySpare)
+	copy(r, w)
+	for i := len(w); i < len(r); i++ {
+		r[i] = -0x3a3a3a3b
+	}
+	return r[:len(w)]
+}
+
+// SpareIntactU64 tells whether the canaries behind w (as made by DirtyU64) are untouched.
+func SpareIntactU64(w []uint64) bool {
+	for _, x := range w[len(w):cap(w)] {
+		if x != 0xC5C5C5C5C5C5C5C5 {
+			return false
+		}
+	}
+	return true
+}
+
+func SpareIntactBytes(b []byte) bool {
+	for _, x := range b[len(b):cap(b)] {
+		if x != 0xC5 {
+			return false
+		}
+	}
+	return true
+}
